@@ -4,6 +4,7 @@
 import VK.Model.Transfers
 import VK.Lemmas.STVWeight
 import VK.Lemmas.STVRun
+import VK.Lemmas.RandomTransfer
 import VK.Lemmas.Condense
 import Mathlib.Tactic.FieldSimp
 import Mathlib.Algebra.Order.Field.Basic
@@ -267,6 +268,51 @@ theorem C03_full_transfer_keeps_weights (cfg : STVCfg) (hopeful : List Cand) (q 
     (sample : List (List Cand × Nat)) (bs bs' : List PBallot) (w : Cand) (hf : cfg.transfer = .full)
     (h : applyTransfer cfg hopeful q sample bs w = .ok bs') : bs' = bs :=
   applyTransfer_full cfg hopeful q sample bs bs' w hf h
+
+
+/-! ### the random (whole-ballot) rule -/
+
+/-- **One random transfer, for every sample the oracle may report.** Ballots not counted for the
+winner are untouched, no ballot gains weight, weights stay non-negative, and the winner's pile
+keeps exactly `tally − threshold` (whole) votes; ballots that still rank a hopeful candidate lose at
+most one threshold in total. -/
+theorem C03_random_transfer (cfg : STVCfg) (hop : List Cand) (q : Int) (sample : List (List Cand × Nat))
+    (bs bs' : List PBallot) (w : Cand) (hf : cfg.transfer = .random) (hnn : ∀ b ∈ bs, 0 ≤ b.2)
+    (h : applyTransfer cfg hop q sample bs w = .ok bs') : RandomFacts hop q w bs bs' :=
+  applyTransfer_random_facts cfg hop q sample bs bs' w hf hnn h
+
+/-- **Round accounting for either built-in transfer rule**: in an election round the next total plus
+the exhausted weight is the previous total minus one threshold per elected candidate. -/
+theorem C03_step_accounting_both (cfg : STVCfg) (init : Profile) (q : Int) (ω : STVOracle) (rnd : Nat)
+    (S S' : CState) (prev r : RoundState) (recs : List RoundState)
+    (hf : cfg.transfer = .fractional ∨ cfg.transfer = .random) (hq : 0 < q)
+    (hi : init.cands.Nodup) (hcs : ∀ c ∈ S.hopeful, c ∈ init.cands)
+    (inv : StvInv init.cands S prev recs) (hl : Linked S prev) (hnn : ∀ b ∈ S.bs, 0 ≤ b.2)
+    (h : stvStep cfg init q ω rnd S prev = .ok (S', r)) :
+    (S'.hopeful = [] ∧ r.remaining = [] ∧ r.elected = prev.remaining) ∨
+    (active S'.bs S'.hopeful + exhausted S'.bs S.hopeful S'.hopeful =
+        active S.bs S.hopeful - (q : Rat) * (r.elected.flatten.length : Rat) ∧ (∀ b ∈ S'.bs, 0 ≤ b.2)) := by
+  have hT : GoodTransfers cfg := hf.elim (goodTransfers_fractional cfg) (goodTransfers_random cfg)
+  obtain ⟨_, hsub', _⟩ := stvStep_inv cfg init q ω rnd S S' prev r recs hi hcs inv h
+  rcases stvStep_cases cfg init q ω rnd S S' prev r h with
+    ⟨g, tbs, bs', habove, he, ha, hSb, hSh, _, hre, _, _⟩ |
+    ⟨_, hSh, _, _, _, _, hre, _, hrr⟩ |
+    ⟨_, lowest, c, tbs, _, _, hSb, hSh, _, hre, _⟩
+  · right
+    obtain ⟨hWn, _⟩ := electChoice_spec cfg q ω rnd S prev g tbs inv.hop_nodup inv.rem he
+    have hge := electChoice_ge cfg q ω rnd S prev g tbs hl inv.hop_nodup habove he
+    obtain ⟨hnn', _, hact⟩ := hT S.hopeful q (ω.sample rnd) (fun _ => false) (fun _ => false) g.flatten S.bs bs'
+      hq hnn hWn hge (by intro w _ _; simp [wsum]) (by intro w _ h; cases h) ha
+    have h4 := active_shrink bs' S.hopeful S'.hopeful hsub'
+    rw [hSb, hre]
+    exact ⟨by rw [← h4, hact], hnn'⟩
+  · exact Or.inl ⟨hSh, hrr, hre⟩
+  · right
+    have h4 := active_shrink S.bs S.hopeful S'.hopeful hsub'
+    rw [hSb, hre]
+    refine ⟨?_, hnn⟩
+    simp only [List.flatten_nil, List.length_nil]
+    rw [← h4]; push_cast; ring
 
 
 end VK
